@@ -227,10 +227,27 @@ reg("C06", ["c06_regp_exec.c"],
          "also uninitialised) through regaccess2blockaccess; the expected verdict comes from calling the register API "
          "directly on the same state. A signature is a (unit, session); evaluations counts frames processed.")
 
+reg("C08", ["c08_regp_emit.c"],
+    rule="'emit': per unit (transport x memory word size x session starting at a random sequence number or at 0xfffd) "
+         "40 rounds over all 18 emit entry points (regp_req_read8/16, regp_req_write8/16, regp_resp_ack with and "
+         "without payload, the eleven regp_resp_e*, regp_resp_meta) with addresses/arguments biased to SLIP control "
+         "octets, block sizes 0..139 and, every fifth time, raw frame lengths 126..129 or 16382..16385; payloads "
+         "random / control octets only / control-rich / counting. 'big': raw lengths 16380..16387 for the write "
+         "requests and the payload acknowledgement. Each emission is compared octet for octet with the reference "
+         "encoder and then received by a peer instance. A signature is a (unit, round); evaluations counts emissions.")
+
 SAN_NOTE = ("Trusted: gcc 12 ASan/UBSan runtime, the harness' reference model, the fork-per-unit runner. "
             "Assumes little-endian x86-64; decides only the executions listed in the evidence file.")
 
 MANIFEST_TEXT = {
+    "C08": dict(
+        technique="runtime monitoring: every emit entry point compared octet for octet with an independent reference encoder (big-endian header, bitwise CRC-16/ARC, SLIP / varint framing) and round-tripped through the library's own receiver; ASan/UBSan",
+        text="The wire image of every emission must equal what the protocol document prescribes as rendered by the "
+             "reference encoder - option bits and checksums per transport, SLIP escaping of control octets in header "
+             "and payload, varint prefixes across the 127/128 and 16383/16384 boundaries - and the peer's regp_recv "
+             "must accept it and return identical type, options, code, sequence, address, block size and payload. "
+             "Request sequence numbers are followed across the 16-bit wrap.",
+        note=SAN_NOTE),
     "C06": dict(
         technique="runtime monitoring: event-log pairing (request <-> backend call <-> response) over generated sessions; frames from an independent reference encoder, replies through an independent reference decoder; allocator ledger; ASan/UBSan",
         text="Every request of every session must show up as exactly one backend call with the same address, size and "
